@@ -102,6 +102,9 @@ def m_into_iter(ex, args, callee):
 
 def m_iter_next(ex, args, callee):
     it = dv(args[0])
+    if isinstance(it, Opaque) and it.tag == 'zst' and 'iter::Empty<' in str(it.payload): return ex.none()
+    if not isinstance(it, It): it = as_iter(ex, it) if isinstance(it, (PVec, PMap)) else it
+    if not isinstance(it, It): raise Unsupported(f'next() of {it!r} ({callee[:80]})')
     x = it.next(ex)
     return ex.none() if x is None else ex.some(x)
 
@@ -513,12 +516,58 @@ def str_len(s):
     raise Unsupported(f'length of {s!r}')
 
 
+def need_concrete_str(v):
+    if not isinstance(v, str): raise Unsupported(f'join of non-concrete string {v!r}')
+    return v
+
+
 def need_str(f):
     def g(ex, args, callee):
         s = dv(args[0])
         if not isinstance(s, str): raise Unsupported(f'{callee}: string content is not concrete')
         return f(s, *[dv(a) for a in args[1:]])
     return g
+
+
+def m_fmt_argument(ex, args, callee):
+    kind = re.search(r'new_(\w+)', callee).group(1)
+    return Opaque('fmtarg', (kind, args[0]))
+
+
+def m_fmt_arguments(ex, args, callee):
+    return Opaque('fmtargs', tuple(args))
+
+
+def render_fmt(ex, fa):
+    """render core::fmt::Arguments built from the packed template rustc emits (length-prefixed literal runs,
+    0xC0 = next argument with the default spec, 0 = end) when every argument is a concrete string shown with Display;
+    None if it cannot be rendered (the result is then an opaque string)"""
+    if not (isinstance(fa, Opaque) and fa.tag == 'fmtargs' and len(fa.payload) == 2): return None
+    tmpl, fargs = dv(fa.payload[0]), dv(fa.payload[1])
+    if not isinstance(tmpl, PVec) or not isinstance(fargs, PVec): return None
+    bs = [c.v for c in tmpl.items]
+    if not all(isinstance(b, int) for b in bs): return None
+    out, i, k = [], 0, 0
+    while i < len(bs):
+        b = bs[i]
+        if b == 0: break
+        if b < 0x80:
+            out.append(bytes(bs[i + 1:i + 1 + b]).decode('utf-8', 'replace')); i += 1 + b
+        elif b == 0xC0:
+            if k >= len(fargs.items): return None
+            a = fargs.items[k].v; k += 1; i += 1
+            if not (isinstance(a, Opaque) and a.tag == 'fmtarg' and a.payload[0] == 'display'): return None
+            v = dv(a.payload[1])
+            if isinstance(v, bool) or not isinstance(v, (str, int)): return None
+            out.append(str(v))
+        else:
+            return None
+    return ''.join(out)
+
+
+def m_fmt_format(ex, args, callee):
+    r = render_fmt(ex, args[0])
+    return r if r is not None else SymStr(z3.FreshConst(StrSort, 'fmt'))
 
 
 def m_panic(ex, args, callee):
@@ -613,8 +662,9 @@ BASE_MODELS = [
     (r'^Vec::<.*>::new$|^Vec::<.*>::with_capacity$', lambda ex, a, c: PVec()), (r'Vec::<.*>::push$', m_vec_push), (r'Vec::<.*>::pop$', m_vec_pop),
     (r'Vec::<.*>::len$|slice::<impl \[.*\]>::len$', lambda ex, a, c: len(dv(a[0]).items)),
     (r'Vec::<.*>::is_empty$|slice::<impl \[.*\]>::is_empty$', lambda ex, a, c: len(dv(a[0]).items) == 0),
-    (r'slice::<impl \[.*\]>::last$', lambda ex, a, c: ex.some(Ref(dv(a[0]).items[-1])) if dv(a[0]).items else ex.none()),
-    (r'slice::<impl \[.*\]>::first$', lambda ex, a, c: ex.some(Ref(dv(a[0]).items[0])) if dv(a[0]).items else ex.none()),
+    (r'slice::<impl \[.*\]>::last(_mut)?$', lambda ex, a, c: ex.some(Ref(dv(a[0]).items[-1])) if dv(a[0]).items else ex.none()),
+    (r'slice::<impl \[.*\]>::first(_mut)?$', lambda ex, a, c: ex.some(Ref(dv(a[0]).items[0])) if dv(a[0]).items else ex.none()),
+    (r'slice::<impl \[.*\]>::join::<', lambda ex, a, c: dv(a[1]).join(need_concrete_str(dv(x.v)) for x in dv(a[0]).items)),
     (r'slice::<impl \[.*\]>::into_vec::|slice::<impl \[.*\]>::to_vec$', ident),
     (r'\[.*\] as Index<.*>>::index$|Vec<.*> as Index<.*>>::index$|as IndexMut<.*>>::index_mut$', m_slice_index),
     (r'Option::<.*>::get_or_insert$', m_get_or_insert), (r'Option::<.*>::get_or_insert_with::', m_get_or_insert_with),
@@ -639,8 +689,10 @@ BASE_MODELS = [
     (r'str as Index<', m_str_index),
     (r'<impl str>::is_empty$|String::is_empty$', lambda ex, a, c: str_len(dv(a[0])) == 0),
     (r'<impl str>::len$|String::len$', lambda ex, a, c: str_len(dv(a[0]))),
-    (r'Arguments::<.*>::(new|from_str|new_const|new_v1)|Argument::<.*>::new_|^core::fmt::rt::', lambda ex, a, c: Opaque('fmt')),
-    (r'^std::fmt::format$|^alloc::fmt::format$', lambda ex, a, c: SymStr(z3.FreshConst(StrSort, 'fmt'))),
+    (r'Argument::<.*>::new_\w+(::<.*>)?$', m_fmt_argument),
+    (r'Arguments::<.*>::(new|from_str|new_const|new_v1)', m_fmt_arguments),
+    (r'^core::fmt::rt::', lambda ex, a, c: Opaque('fmt')),
+    (r'^std::fmt::format$|^alloc::fmt::format$', m_fmt_format),
     (r'^must_use::', ident),
     (r'^<[ui](8|16|32|64|128|size) as (From|TryFrom)<[ui](8|16|32|64|128|size)>>::(from|try_from)$', m_int_from),
     (r'NonZero::<.*>::get$', ident), (r'NonZero::<.*>::new_unchecked$', ident),
